@@ -538,6 +538,28 @@ def clause3_release_hook(ctx, P, cg, own):
            "%d reachable release-hook call sites, all null-guarded (installed: %s)" % (n, installed))
 
 
+def clause4_library_add_fails_clean(ctx, P):
+    """cjet's add wrapper deletes the item when the bundled cJSON cannot attach it - so cJSON's add_item_to_object() must leave the
+    item whole when it reports failure: on every path that returns false nothing of the item has been released (the key the item
+    still carries, from the object it was duplicated out of, is freed only once the new key exists)"""
+    f = P.fn("cJSON.c:add_item_to_object")
+    bad = None
+    n = 0
+    for v in Q.path_views(ctx, P, f):
+        if v.ret_const() != 0:
+            continue
+        n += 1
+        for _, i in v.insts():
+            if i.op == "call" and not i.callee:
+                t = P.term(f, i.ind) if getattr(i, "ind", None) is not None else None
+                if t is not None and Q.mentions(t, lambda x: x[0] == "field" and x[3] in ("deallocate", "#1")):
+                    bad = (v, i)
+    ctx.ob("C15.1 R-COMMIT", f, "failed-library-add-leaves-the-item-whole", bad is None and n >= 1,
+           ("cJSON's add_item_to_object() reports failure at a point where it has already released part of the item (%s): the caller's "
+            "cJSON_Delete(item) frees the dangling key a second time" % bad[1].loc) if bad else "%d failing path(s), none releases anything" % n,
+           witness=bad[0].witness() if bad else None)
+
+
 def run(ctx):
     for cfg in ctx.configs(["default"] if ctx.tier == "quick" else None):
         P, cg = cfg.P, cfg.cg
@@ -547,6 +569,8 @@ def run(ctx):
         clause3_release_hook(ctx, P, cg, own)
         c07.clause1_own(ctx, P, cg, own)
         c07.clause16_handed_over_items(ctx, P)
+        clause4_library_add_fails_clean(ctx, P)
+        c07.clause7_linked(ctx, P, cg, own)
         c02.clause1_overwrite(ctx, P, cg)
         c04.clause4_commit(ctx, P, cg)
         c08.clause2_who(ctx, P)
